@@ -160,7 +160,7 @@ pub fn replay(ctx: &Arc<Ctx>, v: &Value) {
 pub fn run(ctx: &Arc<Ctx>) {
     refmodels::selftest::run(&[ctx.tier.pick("sm4", "sm4long")]).unwrap_or_else(|e| ctx.machinery_error(format!("reference self-test failed: {}", e)));
     ctx.set_rule("keys x blocks over {0^128, 1^128, 128 single-bit, 16 byte patterns, standard vector, seeded}; derived families forcing every S-box index in every byte lane of round 1 (data path) and of the first key-schedule round; all op sequences to depth 4 over {enc b0, enc b1, dec b0, dec b1, rebuild the object with the same key / a key differing in the last byte / in the first byte, a refused decrypt / encrypt of a 15-byte block} (7381 histories per base key); every value of the first and of the last byte of key and block. Oracle: independent SM4 with algebraically generated S-box.");
-    let nseed = ctx.tier.pick(4, 16);
+    let nseed = ctx.tier.pick(4, 64);
     let keys = blocks128(ctx.seed, "c02keys", nseed);
     let blocks = blocks128(ctx.seed, "c02blocks", nseed);
     ctx.note_bound(format!("full product: {} keys x {} blocks x {{encrypt, decrypt, both round trips}}", keys.len(), blocks.len()));
